@@ -467,6 +467,17 @@ int SimulateMips::execute()
       if (((opcode >> 6) & 0x3ff) == 0 && (opcode & 0x3f) == 0x1a)
       {
         // div
+        // A zero divisor leaves HI/LO UNPREDICTABLE on a real CPU, it
+        // must not trap the simulator.  INT_MIN / -1 would trap too.
+        if (reg[rt] == 0) { break; }
+
+        if (reg[rt] == -1)
+        {
+          hi = 0;
+          lo = (uint32_t)0 - (uint32_t)reg[rs];
+          break;
+        }
+
         hi = reg[rs] % reg[rt];
         lo = reg[rs] / reg[rt];
         break;
@@ -475,6 +486,17 @@ int SimulateMips::execute()
       if (((opcode >> 6) & 0x3ff) == 0 && (opcode & 0x3f) == 0x1b)
       {
         // divu
+        // A zero divisor leaves HI/LO UNPREDICTABLE on a real CPU, it
+        // must not trap the simulator.  INT_MIN / -1 would trap too.
+        if (reg[rt] == 0) { break; }
+
+        if (reg[rt] == -1)
+        {
+          hi = 0;
+          lo = (uint32_t)0 - (uint32_t)reg[rs];
+          break;
+        }
+
         hi = reg[rs] % reg[rt];
         lo = reg[rs] / reg[rt];
         break;
